@@ -312,8 +312,8 @@ end Race
 
 /-! ## Specification of transparency over recorded observations
 
-Everything is compared as text: messages are hex strings, metadata values are strings (binary `-bin`
-values hex-encoded by the harness on both sides). -/
+Metadata values are compared as text (binary `-bin` values hex-encoded by the harness on both sides);
+messages are shipped as hex strings and compared as protobuf field sequences (`Wire`). -/
 namespace Spec
 
 abbrev SMD := List (String × List String)
@@ -349,14 +349,102 @@ structure CallerSaw where
   message : String
 deriving Repr
 
+/-! ### messages are compared as protobuf messages
+
+A message is its sequence of fields — (field number, wire type, value) in order, unknown fields included.
+Two encodings of the same sequence (a tag or a varint written with more bytes than necessary) are the same
+message; a dropped, duplicated, reordered or altered field is not.  `canon` decodes the wire format into a
+flat token list from which the field sequence can be read back: per field `num, wiretype,` then the varint's
+numeric value / the 8 or 4 fixed bytes / `len, payload bytes…` / the tokens of the group's fields followed by
+`num, 4`. -/
+namespace Wire
+
+def hexVal (c : Char) : Option Nat :=
+  if '0' ≤ c ∧ c ≤ '9' then some (c.toNat - '0'.toNat)
+  else if 'a' ≤ c ∧ c ≤ 'f' then some (c.toNat - 'a'.toNat + 10)
+  else if 'A' ≤ c ∧ c ≤ 'F' then some (c.toNat - 'A'.toNat + 10)
+  else none
+
+def unhex : List Char → Option (List Nat)
+  | [] => some []
+  | [_] => none
+  | a :: b :: r =>
+    match hexVal a, hexVal b, unhex r with
+    | some x, some y, some t => some ((16 * x + y) :: t)
+    | _, _, _ => none
+
+/-- base-128 varint, at most ten bytes; any number of leading-zero groups is accepted -/
+def varintGo : Nat → Nat → Nat → List Nat → Option (Nat × List Nat)
+  | 0, _, _, _ => none
+  | _ + 1, _, _, [] => none
+  | n + 1, shift, acc, b :: r =>
+    let acc := acc + (b % 128) * 2 ^ shift
+    if b < 128 then some (acc, r) else varintGo n (shift + 7) acc r
+
+def varint (bs : List Nat) : Option (Nat × List Nat) := varintGo 10 0 0 bs
+
+/-- fields up to the end of input (`grp = none`) or up to the end-group tag of field `g` (`grp = some g`) -/
+def parse : Nat → List Nat → Option Nat → Option (List Nat × List Nat)
+  | 0, _, _ => none
+  | _ + 1, [], none => some ([], [])
+  | _ + 1, [], some _ => none
+  | fuel + 1, bs, grp =>
+    match varint bs with
+    | none => none
+    | some (tag, r) =>
+      let num := tag / 8
+      let wt := tag % 8
+      if num = 0 then none
+      else if wt = 4 then (if grp = some num then some ([num, 4], r) else none)
+      else
+        let val : Option (List Nat × List Nat) :=
+          if wt = 0 then (varint r).map fun vr => ([vr.1], vr.2)
+          else if wt = 1 then (if 8 ≤ r.length then some (r.take 8, r.drop 8) else none)
+          else if wt = 5 then (if 4 ≤ r.length then some (r.take 4, r.drop 4) else none)
+          else if wt = 2 then
+            match varint r with
+            | none => none
+            | some (n, r') => if n ≤ r'.length then some (n :: r'.take n, r'.drop n) else none
+          else if wt = 3 then parse fuel r (some num)
+          else none
+        match val with
+        | none => none
+        | some (vt, r') =>
+          match parse fuel r' grp with
+          | none => none
+          | some (rest, r'') => some (num :: wt :: vt ++ rest, r'')
+
+/-- the field sequence of a hex-encoded message; `none` when it is not well-formed wire format -/
+def canon (hex : String) : Option (List Nat) :=
+  match unhex hex.toList with
+  | none => none
+  | some bs =>
+    match parse (bs.length + 1) bs none with
+    | some (toks, []) => some toks
+    | _ => none
+
+/-- same protobuf message (same field sequence); byte equality for anything that is not wire format -/
+def sameMsg (a b : String) : Bool :=
+  a == b ||
+  match canon a, canon b with
+  | some x, some y => x == y
+  | _, _ => false
+
+def sameMsgs : List String → List String → Bool
+  | [], [] => true
+  | a :: as, b :: bs => sameMsg a b && sameMsgs as bs
+  | _, _ => false
+
+end Wire
+
 /-- the backend receives the caller's method, messages and custom metadata in order and unmodified -/
 def forwardOK (method : String) (sentMD : SMD) (sentMsgs : List String) (b : BackendSaw) : Bool :=
-  b.method == method && b.msgs == sentMsgs && mdCarried sentMD b.md
+  b.method == method && Wire.sameMsgs b.msgs sentMsgs && mdCarried sentMD b.md
 
 /-- the caller receives the backend's messages, trailers, final status code and message, and its headers
 whenever it sends at least one message -/
 def backwardOK (d : BackendDid) (c : CallerSaw) : Bool :=
-  c.msgs == d.msgs && mdCarried d.trailer c.trailer && c.code == d.code && c.message == d.message
+  Wire.sameMsgs c.msgs d.msgs && mdCarried d.trailer c.trailer && c.code == d.code && c.message == d.message
     && (d.msgs.isEmpty || mdCarried d.header c.header)
 
 end Spec
